@@ -45,7 +45,9 @@ func finiteBox(b model.BBox) bool {
 // grouped by ParagraphDetector, with the heading decision and the list type of each), and of
 // the reading-order paragraphs: headings = accepted page paragraphs, lists = the runs
 // groupIntoLists builds (index / gap / type rule, runs of one item dropped, box of
-// calculateListBBox, nested items included), paragraphs = those no heading or list box covers.
+// calculateListBBox, nested items included); a heading that is an item of a list is left to the
+// list; of every paragraph the fragments that no emitted heading and no list shows (the box of a
+// reduced paragraph is taken from the implementation).
 func opElements(c *hx.Ctx, frs []text.TextFragment, w, h float64) {
 	if len(frs) == 0 {
 		return
@@ -109,19 +111,14 @@ func opElements(c *hx.Ctx, frs []text.TextFragment, w, h float64) {
 	if runLen == 1 {
 		shortRun = true
 	}
-	var rp []string
-	for _, p := range ar.Paragraphs.Paragraphs {
-		if !finiteBox(p.BBox) {
-			return
-		}
-		ids := dotIDs(elemLineFrags(p.Lines))
-		if ids == "" {
-			return
-		}
-		rp = append(rp, ids+"@"+boxStr(p.BBox.X, p.BBox.Y, p.BBox.Width, p.BBox.Height))
-	}
+	// the elements first: a reduced paragraph is matched to its reading-order paragraph by ids
 	var out []string
 	nh, nl := 0, 0
+	type pel struct {
+		ids map[int]bool
+		box model.BBox
+	}
+	var pels []pel
 	for _, e := range ar.Elements {
 		if !finiteBox(e.BBox) {
 			return
@@ -140,8 +137,45 @@ func opElements(c *hx.Ctx, frs []text.TextFragment, w, h float64) {
 			}
 		default:
 			kind, fs = "P", elemLineFrags(e.Lines)
+			m := map[int]bool{}
+			for _, id := range idsOf(fs, false) {
+				m[id] = true
+			}
+			pels = append(pels, pel{m, e.BBox})
 		}
 		out = append(out, kind+":"+dotIDs(fs)+":"+boxStr(e.BBox.X, e.BBox.Y, e.BBox.Width, e.BBox.Height))
+	}
+	var rp []string
+	reduced := false
+	for _, p := range ar.Paragraphs.Paragraphs {
+		if !finiteBox(p.BBox) {
+			return
+		}
+		pf := elemLineFrags(p.Lines)
+		ids := dotIDs(pf)
+		if ids == "" {
+			return
+		}
+		// the box of what remains of p: that of the paragraph element showing some, not all, of p
+		rb := p.BBox
+		pid := idsOf(pf, false)
+		for _, e := range pels {
+			n := 0
+			for _, id := range pid {
+				if e.ids[id] {
+					n++
+				}
+			}
+			if n > 0 && n == len(e.ids) && n < len(pid) {
+				rb = e.box
+				reduced = true
+			}
+		}
+		rp = append(rp, ids+"@"+boxStr(p.BBox.X, p.BBox.Y, p.BBox.Width, p.BBox.Height)+"@"+boxStr(rb.X, rb.Y, rb.Width, rb.Height))
+	}
+	headingInList := false
+	if ar.Headings != nil && nh < len(ar.Headings.Headings) {
+		headingInList = true
 	}
 	sort.Strings(out)
 	if nh > 0 {
@@ -158,6 +192,12 @@ func opElements(c *hx.Ctx, frs []text.TextFragment, w, h float64) {
 	}
 	if gapJoin {
 		c.Count("elems:list-joined-across-a-paragraph")
+	}
+	if reduced {
+		c.Count("elems:paragraph-reduced")
+	}
+	if headingInList {
+		c.Count("elems:heading-is-list-item")
 	}
 	j := func(xs []string) string {
 		if len(xs) == 0 {
